@@ -36,7 +36,8 @@ SINGLE_NAMES = ["sheet.css", "sheet.css", "admin_cm.css", "normalize.min.css", "
                 os.path.join("vendor", "normalize.css-8.0.1", "normalize.css"), os.path.join("my.css.d", "a.css")]
 DIR_NAMES = ["sheet0.css", "vendor.min.css", "print styles.css"]
 DIR_NAME_SETS = [["sheet0.css", "vendor.min.css", "print styles.css"], ["app.css.bundle.css", "grid_cmss.css", "print.css.css"],
-                 ["a.css", os.path.join("normalize.css-8.0.1", "normalize.css"), "admin_cms.css"]]
+                 ["a.css", os.path.join("normalize.css-8.0.1", "normalize.css"), "admin_cms.css"],
+                 [".hidden.css", os.path.join(".storybook", "preview.css"), "z.css"]]
 
 
 def shards(tier, seed):
